@@ -874,6 +874,13 @@ def gen_value(R, rng, depth=0, maxdepth=6):
         s = set()
         for _ in range(n):
             safe_add(s, gen_hashable(R, rng, depth))
+        if rng.random() < 0.2:
+            # members that are distinct doubles but equal at float32 precision: the decoded set is smaller
+            f = f32round(rng.uniform(-1e6, 1e6))
+            s.add(f)
+            s.add(math.nextafter(f, math.inf))
+            if rng.random() < 0.5:
+                s.add(math.nextafter(f, -math.inf))
         return s
     if r < 0.92:
         return gen_object(R, rng, depth)
@@ -1152,6 +1159,13 @@ def run(ctx):
         ops.append("enc " + tok(R, s))
         values.append(("str", s))
     cases.append(make_case(R, "floats-strs", ops))
+    # distinct members / keys that coincide at float32 precision (the decoded collection is smaller than the encoded count)
+    ops = []
+    for v in [{16777216.0, 16777217.0}, {0.1, 0.10000000149011612}, {1e10, 1e10 + 1, 1e10 + 2}, [{2.5, 2.5000000001}, 3],
+              {"k": {1.0e-3, 1.0000000001e-3}}, {16777216.0: "a", 16777217.0: "b"}]:
+        ops.append("enc " + tok(R, v))
+        values.append(("float32-coincide", v))
+    cases.append(make_case(R, "f32-coincide", ops))
 
     # float rounding kernel against struct
     ops = []
